@@ -1036,8 +1036,43 @@ fn nhandles(ops: &[Op]) -> usize {
 fn drive(d: &Dispatch, log: &Log, tab: &[&'static Cs], ops: &[Op]) {
     let _g = dispatch::set_default(d);
     let mut hs: Vec<Option<Span>> = (0..nhandles(ops)).map(|_| None).collect();
+    // Half of the workloads run some of their operations while the thread is unwinding from a
+    // panic (from a Drop impl; the panic is caught right away): notifications delivered while
+    // `std::thread::panicking()` are notifications like any other. Which operations: a function
+    // of the workload alone, so the reference and the variant stack get the same treatment.
+    let sel = vlib::rng::hash_str(&format!("{ops:?}"));
+    let unwinding = |k: usize| sel % 2 == 0 && (sel >> 8).wrapping_add(k as u64).wrapping_mul(0x9E37_79B9_7F4A_7C15) >> 61 == 0;
     for (k, op) in ops.iter().enumerate() {
         log.op(format!("{k}:{op:?}"));
+        if unwinding(k) {
+            struct OnDrop<F: FnMut()>(F);
+            impl<F: FnMut()> Drop for OnDrop<F> {
+                fn drop(&mut self) {
+                    (self.0)()
+                }
+            }
+            let hs = &mut hs;
+            let r = std::panic::catch_unwind(std::panic::AssertUnwindSafe(move || {
+                let _g = OnDrop(move || {
+                    assert!(std::thread::panicking(), "HARNESS: not unwinding");
+                    exec_op(log, tab, hs, op)
+                });
+                std::panic::resume_unwind(Box::new("c09 unwinding op"));
+            }));
+            assert!(r.is_err(), "HARNESS: unwinding op did not unwind");
+            UNWOUND_OPS.fetch_add(1, std::sync::atomic::Ordering::Relaxed);
+        } else {
+            exec_op(log, tab, &mut hs, op);
+        }
+    }
+    log.op("teardown".into());
+    drop(hs);
+}
+
+static UNWOUND_OPS: std::sync::atomic::AtomicU64 = std::sync::atomic::AtomicU64::new(0);
+
+fn exec_op(log: &Log, tab: &[&'static Cs], hs: &mut [Option<Span>], op: &Op) {
+    {
         match op {
             Op::Span { cs, h, opid } => match (tab[*cs].emit)(*opid) {
                 Emitted::Span(s) => {
@@ -1086,8 +1121,6 @@ fn drive(d: &Dispatch, log: &Log, tab: &[&'static Cs], ops: &[Op]) {
             Op::Rebuild => tracing_core::callsite::rebuild_interest_cache(),
         }
     }
-    log.op("teardown".into());
-    drop(hs);
 }
 
 /// Fixed rich workload over a table [span A, event X, span B, event Y, probe P]: touches every
@@ -2987,6 +3020,7 @@ fn child(args: &Args) {
         out.set("cells", c);
     }
     out.count("fresh_callsites_taken", proc_.fresh_taken as u64);
+    out.count("ops_run_while_the_thread_is_unwinding", UNWOUND_OPS.load(std::sync::atomic::Ordering::Relaxed));
     out.emit();
 }
 
